@@ -36,7 +36,7 @@ ASSUMPTIONS = ["reference codec checks/bleref.py (Core spec whitening, CRC-24, P
                "raw / unknown structures must appear byte-for-byte in one of the element's data entries"]
 CLAUSES = {"decode": "queued element equals what was advertised", "reject": "inconsistent length byte or CRC-24 => not queued",
            "no_raise": "available() never raises for any 32 received bytes", "fifo": "read() in arrival order, each once"}
-PROBES = ["crc_valid_malformed_pdu", "flip_in_padding_still_valid", "end_to_end_checked"]
+PROBES = ["crc_valid_malformed_pdu", "flip_in_padding_still_valid", "end_to_end_checked", "scanner_reentered", "scanner_reentered_with_unread_elements"]
 SHRINK_KEYS = ("packets", "faults")
 CHUNK = 60
 CHS = [2, 26, 80]
@@ -176,7 +176,9 @@ def make(i, base_seed, tier):
             # channel); the scanner - with elements still unread - advertises something itself and listens again
             "tx_hops": {str(j): xr.randint(1, 4) for j in range(len(pkts)) if xr.random() < 0.2},
             "scanner_advertises": [j for j in range(len(pkts)) if xr.random() < 0.15],
-            "reuse_chunks": xr.random() < 0.4}
+            "reuse_chunks": xr.random() < 0.4,
+            # the scanner leaves its context (elements still unread) and enters it again, then listens on
+            "scanner_reenters": [j for j in range(len(pkts)) if xr.random() < 0.12]}
 
 
 def _expect_from_pdu(pdu):
@@ -402,6 +404,19 @@ def _run(scn, w, res):
                     o_.channel = ch
             sim.advance(300_000)
             sim.count("advertiser_hopped_and_reentered")
+        if j in (scn.get("scanner_reenters") or []) and not pending:
+            q_before = len(rx.rx_queue)
+            rx.__exit__(None, None, None)
+            sim.advance(500_000)
+            rx.__enter__()
+            rx.channel = scn_ch[0]
+            rx.listen = True
+            sim.advance(5_000_000)
+            if len(rx.rx_queue) != q_before:
+                res.add("fifo", {"kind": "queue_changed_by_reentry"}, "leaving and re-entering the scanner's context changed its queue from %d to %d unread elements" % (q_before, len(rx.rx_queue)))
+                return
+            sim.count("scanner_reentered", 1)
+            sim.count("scanner_reentered_with_unread_elements", 1 if q_before else 0)
         if j in (scn.get("scanner_advertises") or []) and not pending and not (scn.get("faults") or []) and rx2 is None:   # (a second scanner would hear it)
             # one more packet reaches the scanner after its last poll, then it turns advertiser for a moment
             inj.radio.r[5] = scn_ch[0]
